@@ -542,8 +542,50 @@ func streamCancel(c *Ctx) {
 					}
 					s.Receive()
 					got := codeName(s.Err())
-					_ = s.Close()
-					return got, got == want
+					// closing the response of a call whose context has ended: nothing, or that code again
+					closed := codeName(s.Close())
+					return got + " close=" + closed, got == want && (closed == "ok" || closed == want)
+				}})
+			}
+			// K4b: the context ends and the very next thing the program does is close the response,
+			// with messages still unread
+			for _, deadline := range []bool{false, true} {
+				deadline := deadline
+				scs = append(scs, scenario{"cancel-then-close", fmt.Sprintf("context ends (deadline=%v), then Close with unread messages, %s", deadline, tag), func() (string, bool) {
+					release := make(chan struct{})
+					h := connect.NewServerStreamHandler("/s/m", func(ctx context.Context, r *connect.Request[[]byte], s *connect.ServerStream[[]byte]) error {
+						_ = s.Send(&[]byte{1})
+						select {
+						case <-release:
+						case <-time.After(10 * time.Second):
+						}
+						return nil
+					}, connect.WithCodec(rawCodec{"raw"}))
+					srv := startServer(h, h2)
+					defer srv.Close()
+					defer close(release)
+					cl := connect.NewClient[[]byte, []byte](srv.Client(), srv.URL+"/s/m", protoOpts(proto)...)
+					ctx, cancel := context.WithCancel(context.Background())
+					want := "canceled"
+					if deadline {
+						ctx, cancel = context.WithTimeout(context.Background(), 150*time.Millisecond)
+						want = "deadline_exceeded"
+					}
+					defer cancel()
+					s, err := cl.CallServerStream(ctx, connect.NewRequest(&[]byte{}))
+					if err != nil {
+						return err.Error(), false
+					}
+					if !s.Receive() {
+						return "first receive failed: " + codeName(s.Err()), false
+					}
+					if deadline {
+						<-ctx.Done()
+					} else {
+						cancel()
+					}
+					closed := codeName(s.Close())
+					return "close=" + closed, closed == "ok" || closed == want
 				}})
 			}
 			// K5: context already cancelled / expired before the call
